@@ -342,6 +342,27 @@ pub fn guard_u8_u16() {
     cover!(matches!(sit, EncoderSituation::Inverted(..)), "inspected while words are held back");
 }
 
+/// C02: `clear()` ("resets the coder to the same state as new") must leave an encoder that behaves
+/// like a fresh one: the next message it seals is that message and nothing else.  From ANY encoder
+/// state (also while words are held back for a pending carry): after clear(), encoding one symbol
+/// and sealing yields exactly the words a new encoder yields for that symbol.
+#[cfg_attr(kani, kani::proof)]
+#[cfg_attr(kani, kani::unwind(8))]
+pub fn clear_then_encode_u8_u16() {
+    let (st, sit) = u8_u16_p8::any_enc_state(2);
+    let mut v: Vec<u8> = Vec::with_capacity(8);
+    v.push(any());
+    let mut enc = RangeEncoder::<u8, u16, Vec<u8>>::from_raw_parts(v, st, sit);
+    enc.clear();
+    let mut fresh = RangeEncoder::<u8, u16, Vec<u8>>::with_backend(Vec::with_capacity(8));
+    let e = any_entry::<u8, 8>(false);
+    if enc.encode_symbol(e.sym, e).is_err() || fresh.encode_symbol(e.sym, e).is_err() { assert!(false, "C02: encode failed"); return; }
+    let a = enc.into_compressed().unwrap(); let b = fresh.into_compressed().unwrap();
+    assert!(a.len() == b.len(), "C02: a cleared range encoder seals a different number of words than a new one");
+    let mut i = 0; while i < b.len() { assert!(a[i] == b[i], "C02: a cleared range encoder seals different words than a new one"); i += 1; }
+    cover!(matches!(sit, EncoderSituation::Inverted(..)), "cleared while words were held back");
+}
+
 pub mod msg {
     use super::*;
     range_msg!(n1_u8_u16_p5, u8, u16, 5, 1);
